@@ -12,7 +12,9 @@ open SigmaVerif.Conv SigmaVerif.ConvSpec SigmaVerif.ConvLemmas
 /-! ## 1. The emitted query, read by the target language's precedence rules, means the tree -/
 
 /-- For every precedence permutation, both `parenthesize` settings, all in-list knob settings and
-every well-formed condition tree (any size/shape, vanished operands, expanded values, nested NOTs):
+every well-formed condition tree (any size/shape, vanished operands, expanded values, CIDR values
+without native expression, negative existence tests rendered as NOT from inside the atom
+conversion, nested NOTs):
 the emitted token list is accepted by the target language's reader and the expression it reads has
 exactly the meaning of the condition tree. -/
 theorem convert_sound (k : Cfg) (hk : k.wf = true) (hn : k.notAsNotEq = false) (c : CT)
@@ -31,6 +33,7 @@ example : ∀ p ∈ [[Op.not, .and, .or], [.not, .or, .and], [.and, .not, .or], 
 example : (cfg [.and, .and, .or]).wf = false := by decide
 example : wfTree (.and [.atom 1 strF1, .not (.or [.atom 2 strF1, .not (.atom 3 strF1), .none,
     .and [.none], .exp [(4, strF1), (5, strF2)]])]) = true := by decide
+example : wfTree (.and [.atom 1 strF1, .nex 2 exF1, .not (.nex 3 exF1)]) = true := by decide
 /-- a concrete instance through the theorem, for a non-default precedence (OR binds tightest) with
 `parenthesize`, a vanished operand, an expanded value and NOT inside NOT -/
 example : ∃ q e, convert (cfg [.or, .not, .and] true) false
@@ -44,6 +47,23 @@ example : ∃ q e, convert (cfg [.or, .not, .and] true) false
   obtain ⟨e, he, _⟩ := convert_sound _ (by decide) rfl _ (by decide) _ hq
   exact ⟨_, e, hq, he, rfl⟩
 example : convert (cfg defaultPrec) false (.and [.none, .or [.none, .not .none]]) = none := by decide
+
+/-- A negative existence test in a backend without a not-exists expression (`CT.nex`) is emitted as
+`NOT exists` from inside the atom conversion.  `compare_precedence` gives it the class of NOT: it
+is grouped exactly where NOT binds looser than the enclosing operator, not by `parenthesize`
+(it is a field/value expression), and a NOT in front of it is not grouped (`NOT NOT exists`) —
+all of which `convert_sound` covers. -/
+example : convert (cfg [.and, .not, .or]) false (.and [.atom 1 strF1, .nex 2 exF1])
+      = some [.atom 1, .tand, .lp, .tnot, .atom 2, .rp] ∧
+    convert (cfg defaultPrec true) false (.and [.atom 1 strF1, .nex 2 exF1])
+      = some [.atom 1, .tand, .tnot, .atom 2] ∧
+    convert (cfg [.and, .not, .or]) false (.and [.atom 1 strF1, .not (.nex 2 exF1)])
+      = some [.atom 1, .tand, .lp, .tnot, .tnot, .atom 2, .rp] := by decide
+/-- … and the grouping of `nex` is needed: without it `a AND NOT b` is not even a sentence of a
+language in which AND binds tighter than NOT -/
+example : readQ [.and, .not, .or] [.atom 1, .tand, .tnot, .atom 2] = none ∧
+    readQ [.and, .not, .or] [.atom 1, .tand, .lp, .tnot, .atom 2, .rp]
+      = some (.and (.atom 1) (.not (.atom 2))) := by decide
 
 /-! ## 2. Each side condition of `wfTree` is needed -/
 
@@ -90,6 +110,17 @@ theorem not_as_not_eq_drops_not :
       ∃ e, readQ k.prec q = some e ∧ ∀ ρ, evalCT ρ c ≠ some (e.denote ρ) :=
   ⟨cfg defaultPrec false false false false true, .not (.atom 1 numF1), [.atom 1],
    by decide, by decide, by decide, .atom 1, by decide, fun ρ => by cases h : ρ 1 <;> simp [evalCT, QE.denote, h]⟩
+
+/-- In not-equals mode the alternatives of an expanded value below a NOT are rendered through the
+negated twins (they are converted inside the dynamic extent of the context manager entered for the
+item itself) but stay OR-linked: `not (a or b)` is emitted as `(a≠ or b≠)`. -/
+theorem not_as_not_eq_expansion_unsound :
+    ∃ k c q, k.wf = true ∧ k.notAsNotEq = true ∧ convert k false c = some q ∧
+      ∃ e ρ, readQ k.prec q = some e ∧ evalCT ρ c ≠ some (e.denote ρ) :=
+  ⟨cfg defaultPrec false false false false true,
+   .not (.exp [(1, strF1), (2, strF1)]),
+   [.lp, .natom 1, .tor, .natom 2, .rp], by decide, by decide, by decide,
+   .or (.natom 1) (.natom 2), fun n => n == 1, by decide, by decide⟩
 
 /-! ## 4. The in-list shortcut never changes the meaning -/
 
